@@ -70,6 +70,26 @@ func runC08(tier string, seed uint64, o *Out) error {
 		return err
 	}
 	pairs := [][2]int64{{10, 5}, {10, 3}, {10, 10}, {5, 10}, {7, 2}, {1000, 250}}
+	// one watermark passes several slides of a sparse history; a row ingested during its first firing lies in the
+	// already advanced current slot, behind the watermark, and no older buffered row shares its later intervals
+	duringPass := []wop{{kind: 'A', id: 1, ts: 1001}, {kind: 'X'}, {kind: 'A', id: 2, ts: 1031},
+		{kind: 'D', inj: [][]wop{{{kind: 'A', id: 3, ts: 1012}}}}, {kind: 'X'}, {kind: 'A', id: 4, ts: 1060}, {kind: 'X'}}
+	if err := slidingLine(o, "C08", swCfg{10, 5, 0, 0}, duringPass, "corpus"); err != nil {
+		return err
+	}
+	nsparse := 200
+	if tier == "thorough" {
+		nsparse = 4000
+	}
+	for i := 0; i < nsparse; i++ {
+		p := pairs[rng.Intn(len(pairs))]
+		c := swCfg{size: p[0], slide: p[1]}
+		c.ooo = []int64{0, 0, c.size / 2, 3 * c.size}[rng.Intn(4)]
+		c.late = []int64{0, 0, c.slide, 3 * c.size}[rng.Intn(4)]
+		if err := slidingLine(o, "C08", c, genSparsePass(rng, c), "sparse history, one watermark passes several slides, rows ingested during its firings"); err != nil {
+			return err
+		}
+	}
 	nestLate = true
 	defer func() { nestLate = false }()
 	for i := 0; i < ncases; i++ {
@@ -112,4 +132,84 @@ func runC08(tier string, seed uint64, o *Out) error {
 		return err
 	}
 	return nil
+}
+
+// genSparsePass: a sparse stepped history in which ONE watermark passes several slides. A few rows lie in the first
+// interval [a, a+size) (mostly in its first slide, so the firing evicts them), the channel is drained, then a far row
+// moves the watermark over k further slides. During that single delivery rows are ingested after the first (and
+// sometimes the second) firing: mostly inside the already advanced current slot (kept by the late-row policy although
+// behind the watermark), sometimes before it (dropped), on its edges, or ahead of the watermark. Mostly no row that was
+// buffered when the pass started shares the later intervals with them. Repeated for a second pass further on.
+func genSparsePass(rng *RNG, c swCfg) []wop {
+	var ops []wop
+	id := int64(0)
+	add := func(ts int64) wop {
+		id++
+		if ts < 0 {
+			ts = 0
+		}
+		return wop{kind: 'A', id: id, ts: ts}
+	}
+	a := (int64(1000)/c.slide + int64(rng.Intn(4))) * c.slide
+	maxTs := int64(0)
+	for pass := 0; pass < 1+rng.Intn(2); pass++ {
+		// rows of the first interval of this pass
+		for j := 1 + rng.Intn(3); j > 0; j-- {
+			ts := a + int64(rng.Intn(int(c.slide)))
+			if c.slide > c.size {
+				ts = a + int64(rng.Intn(int(c.size)))
+			}
+			if rng.Intn(6) == 0 { // an older buffered row that does share later intervals
+				ts = a + int64(rng.Intn(int(c.size)))
+			}
+			if ts < maxTs-c.ooo { // keep them on time
+				ts = maxTs
+			}
+			if ts > maxTs {
+				maxTs = ts
+			}
+			ops = append(ops, add(ts))
+		}
+		ops = append(ops, wop{kind: 'X'})
+		k := int64(2 + rng.Intn(5))
+		far := a + c.size + c.ooo + k*c.slide + int64(rng.Intn(int(c.slide)))
+		if far > maxTs {
+			maxTs = far
+		}
+		ops = append(ops, add(far))
+		d := wop{kind: 'D', inj: [][]wop{}}
+		nl := 1 + rng.Intn(2)
+		if rng.Intn(5) == 0 {
+			d.inj = append(d.inj, nil) // nothing after the first firing, rows after the second one
+			nl = 2
+		}
+		for l := len(d.inj); l < nl; l++ {
+			slot := a + int64(l+1)*c.slide // current slot after the (l+1)-th firing of a sparse pass
+			var lst []wop
+			for j := 1 + rng.Intn(2); j > 0; j-- {
+				var ts int64
+				switch rng.Intn(8) {
+				case 0: // first instant of the slot
+					ts = slot
+				case 1: // last instant of the slot
+					ts = slot + c.size - 1
+				case 2: // just outside (dropped, or ahead)
+					ts = slot - 1 + int64(rng.Intn(2))*(c.size+1)
+				case 3: // anywhere up to the far row
+					ts = a + int64(rng.Intn(int(far-a)+1))
+				default:
+					ts = slot + int64(rng.Intn(int(c.size)))
+				}
+				lst = append(lst, add(ts))
+			}
+			d.inj = append(d.inj, lst)
+		}
+		ops = append(ops, d, wop{kind: 'X'})
+		a = (far/c.slide + 1 + int64(rng.Intn(3))) * c.slide
+		if c.ooo > 0 {
+			a += (c.ooo/c.slide + 1) * c.slide
+		}
+	}
+	ops = append(ops, add(maxTs+c.ooo+5*c.size+5*c.slide), wop{kind: 'X'})
+	return ops
 }
